@@ -1,4 +1,5 @@
 import JellyModel.Parse
+import JellyProofs.Lemmas.HeaderLoop
 /-!
 # Truncation lemmas for the framing layer (`JellyModel/Parse.lean`)
 
@@ -674,7 +675,7 @@ theorem delimitedHint_short (h : Bytes) (hl : h.length < 3) : delimitedHint h = 
 
 theorem SourceKind.header_length_le (kind : SourceKind) (b : Bytes) :
     (kind.header b).length ≤ b.length := by
-  cases kind <;> exact List.length_take_le' _ _
+  rw [SourceKind.header_eq_take]; exact List.length_take_le' _ _
 
 theorem readVarintAux_length_lt (fuel sh acc : Nat) (b : Bytes) (v : Nat) (r : Bytes) :
     readVarintAux fuel sh acc b = some (v, r) → r.length < b.length := by
